@@ -5,7 +5,7 @@
    the enumerated model t, c_anneal_quso / c_anneal_puso are the entry points of the extension, package adds labels and
    the offset.  E_puso (puso_flatten t) s is the model without its constant evaluated at the spin list s. *)
 From QV.Model Require Import Base Matrix Convert Reduce Anneal.
-From QV.Proofs Require Import BaseProofs AnnealProofs.
+From QV.Proofs Require Import BaseProofs KeyProofs ArithProofs InvProofs AnnealProofs.
 Open Scope Q_scope.
 
 (* a call of the quadratic kernel: exactly n results; every state has one entry +-1 per spin; the reported value is the
@@ -48,6 +48,33 @@ Print Assumptions C11_package.
 Theorem C11_arrays : forall N t, qvalid N t -> args_ok (quso_flatten N t) N.
 Proof. exact flatten_ok. Qed.
 Print Assumptions C11_arrays.
+
+(* the model handed to the kernel is valid for it: Matrix inputs (labels are the spin indices, N = largest label + 1) and
+   labelled inputs (enumerated through the mapping, N = num_binary_variables); Inv is the C14 invariant, wf canonical storage *)
+Theorem C11_prepared_matrix : forall m, Inv m -> wf (kd m) (tm m) -> kd m = KQusoM ->
+  qvalid (matrix_N m) (tm m) /\ NoDup (map fst (tm m)).
+Proof. exact prep_matrix_valid. Qed.
+Print Assumptions C11_prepared_matrix.
+Theorem C11_prepared_labelled : forall m e, Inv m -> is_labelled (kd m) = true -> Convert.quso_to_quso m = Ok e ->
+  qvalid (num_vars m) (tm e) /\ NoDup (map fst (tm e)).
+Proof. exact prep_labelled_valid. Qed.
+Print Assumptions C11_prepared_labelled.
+
+(* end to end for anneal_quso on a QUSOMatrix: num_anneals results, each a +-1 state over spins 0..N-1 whose reported value is
+   the model (offset included) evaluated at that state -- every schedule, initial state, visiting order and seed *)
+Theorem C11_anneal_quso_matrix : forall m tab Ts num io initial seed l,
+  kd m = KQusoM -> Inv m -> wf (kd m) (tm m) ->
+  run_spin true (SrcModel m) tab Ts num io initial seed = AResults l ->
+  (0 < num)%Z -> matrix_N m <> 0%nat ->
+  (forall d, initial = Some d -> forall k, (k < matrix_N m)%nat ->
+     match assoc_get k d with Some v => v = 1%Z \/ v = (-1)%Z | None => True end) ->
+  let N := matrix_N m in
+  length l = Z.to_nat num /\
+  forall st v, In (st, v) l -> exists s, length s = N /\ pm1 s /\
+    st = map (fun k => (match assoc_get k (identity_rmp N) with Some lb => lb | None => k end, nth k s 0%Z)) (seq 0 N) /\
+    v == eval (env_of s) (tm m).
+Proof. exact run_spin_quso_matrix. Qed.
+Print Assumptions C11_anneal_quso_matrix.
 
 (* non-vacuity: two anneals of z0 z1 - z1 z2 + z0 (+ offset 5) at temperature zero from (1,1,1) *)
 Example C11_example :
